@@ -35,7 +35,7 @@ def main():
         "engines": [
             {"name": "E1-kani", "path": "/verif/kani", "serves_properties": sorted(CLAIMED),
              "kind_free_text": "Kani 0.68 / CBMC 6.11 bounded model checking of the compiled crate (harness bodies compiled in-crate, symbolic inputs, unwinding assertions on); counterexamples replayed natively by /verif/replay"},
-            {"name": "E3-mirsmt", "path": "/verif/mirsmt", "serves_properties": ["C03", "C07", "C10", "C12", "C13", "C14", "C16"],
+            {"name": "E3-mirsmt", "path": "/verif/mirsmt", "serves_properties": ["C03", "C07", "C10", "C11", "C12", "C13", "C14", "C16"],
              "kind_free_text": "MIR -> SMT-LIB for small loop-free glue that Kani cannot compile (async closures): nightly MIR dump regenerated per run, symbolic execution of the named bodies, z3 cross-checked with cvc5; a satisfiable query is confirmed by a native witness program"},
         ],
         "checks": [],
